@@ -1242,6 +1242,8 @@ def run(ctx, only=None):
     # the wiring the library itself performs (real loop, real executor threads)
     gf = rng.fork("factory")
     check_factories(ctx, [dict(w) for w in FACTORY_WITNESSES] + [gen_factory(gf) for _ in range(ctx.scale(40, 300))])
+    gh = rng.fork("factory-http")
+    check_http_factories(ctx, [gen_http_factory(gh) for _ in range(ctx.scale(12, 60))])
     # a sample of stream-reader histories through a real event-loop thread
     env = Env(thread_hop=True)
     try:
@@ -1258,7 +1260,133 @@ def widen(ctx):
     run(ctx)
 
 
+class _FastTime:
+    """`time` inside audio_source for the free-running HTTP scenarios: polling sleeps are
+    shortened, the clock is the real one."""
+
+    def monotonic(self):
+        return time.monotonic()
+
+    def sleep(self, _s):
+        time.sleep(0.0003)
+
+
+class _PlainResponse:
+    def __init__(self, src, metaint=0):
+        self.status_code, self.reason = 200, "OK"
+        self.headers = {"icy-metaint": str(metaint)} if metaint else {}
+        self.raw = self
+        self._src = src
+
+    def read(self, n):
+        return self._src.take(n)
+
+    def __enter__(self):
+        return self
+
+    def __exit__(self, *a):
+        return False
+
+
+def run_http_factory(f):
+    """The real InternetSource.open with its real, free-running download thread (fake
+    `requests` response, real lock, shortened polling sleeps): probe, rewind, unprotect,
+    then the decoder pulls the stream to its end.  Returns (bytes received, error)."""
+    from pyatv.protocols.raop import audio_source as A
+    h = {"seed": f["seed"], "srclen": f["srclen"], "metaint": f.get("metaint", 0), "metas": f.get("metas"),
+         "cut": f.get("cut")}
+    wire, audio = _build_wire(h)
+    src = ScriptedSource(wire, f["ks"])
+    capture = bytearray()
+    saved = {k: getattr(A, k) for k in ("miniaudio", "get_metadata", "requests", "time")}
+
+    async def fake_get_metadata(file):
+        def probe():
+            for op in f["probe"]:
+                if op[0] == "read":
+                    file.read(op[1])
+                else:
+                    file.seek(op[1])
+        await asyncio.get_event_loop().run_in_executor(None, probe)
+        return A.EMPTY_METADATA
+
+    async def scenario():
+        loop = asyncio.get_event_loop()
+        inst = await A.InternetSource.open("http://verif.invalid/stream", 44100, 2, 2)
+        try:
+            for _ in range(2 * len(audio) // max(1, f["chunk"]) + 64):
+                data = await loop.run_in_executor(None, inst.source.read, f["chunk"])
+                if not data:
+                    break
+                capture.extend(data)
+        finally:
+            await inst.close()
+
+    loop = asyncio.new_event_loop()
+    error = None
+    A.miniaudio = _MiniaudioShim(saved["miniaudio"], bytearray(), threading.Lock())
+    A.get_metadata = fake_get_metadata
+    A.requests = FakeRequests(_PlainResponse(src, h["metaint"]))
+    A.time = _FastTime()
+    try:
+        loop.run_until_complete(asyncio.wait_for(scenario(), 60))
+    except Exception as e:
+        error = type(e).__name__ + ": " + str(e)[:120]
+    finally:
+        for k, v in saved.items():
+            setattr(A, k, v)
+        try:
+            loop.run_until_complete(loop.shutdown_default_executor())
+        except Exception:
+            pass
+        loop.close()
+    return bytes(capture), audio, error
+
+
+def gen_http_factory(rng):
+    srclen = rng.choice([0, 100, 9000, 30000, 70000, 150000])
+    probe, pos = [], 0
+    limit = min(srclen, 48000)          # what a probing read can wait for without timing out
+    for _ in range(rng.randint(0, 6)):
+        if rng.chance(0.65) and pos < limit:
+            n = rng.choice([1, 10, 4096, 8192, 32768, 40000, limit - pos])
+            n = max(1, min(n, limit - pos))
+            probe.append(["read", n])
+            pos += n
+        else:
+            pos = rng.choice([0, 0, 1, 4096, pos, max(0, pos - 1)])
+            probe.append(["seek", pos])
+    metaint = rng.choice([0, 0, 16000, 8192, 1000])
+    f = {"kind": "http", "seed": rng.randint(0, 255), "srclen": srclen, "probe": probe, "metaint": metaint,
+         "metas": [rng.choice([0, 0, 1, 3]) for _ in range(3)] if metaint else [],
+         "ks": [rng.choice([10 ** 6, 8191, 4095, rng.randint(0, 8000)]) for _ in range(rng.choice([0, 8, 64]))],
+         "chunk": rng.choice([1056, 4096, 8192, 32768])}
+    if metaint:
+        f["cut"] = len(_build_wire(dict(f, cut=None))[0])
+    return f
+
+
+def check_http_factories(ctx, fs):
+    for f in fs:
+        got, audio, error = run_http_factory(f)
+        case = dict(f, target="factory")
+        ctx.case(["factory-http", f], bool(f["probe"]), sample=None)
+        ctx.note("target:factory-http")
+        if error is not None:
+            ctx.fail("factory:exception", case, error, "the factory opens the stream and the decoder can read it",
+                     "InternetSource.open / reading raised " + error)
+        elif got != audio:
+            n = next((i for i, (a, b) in enumerate(zip(got, audio)) if a != b), min(len(got), len(audio)))
+            kind = "premature-eof" if n == len(got) else "read-mismatch"
+            ctx.fail("factory:" + kind, case, "decoder received %d bytes, first difference at offset %d" % (len(got), n),
+                     "exactly the %d audio bytes of the response, in order" % len(audio),
+                     "after the metadata probe %r the decoder did not receive the HTTP stream from its first byte" % (f["probe"],))
+
+
 def factory_fails(f):
+    if f.get("kind") == "http":
+        got, audio, error = run_http_factory(f)
+        return error is not None or got != audio
     tokens, got, error = run_factory(f)
     return error is not None or got != pat(f["seed"], 0, f["srclen"])
 
